@@ -168,11 +168,41 @@ class Helpers(Harness):
             return [('get_max reports the peak', n_eq(outcome[1], ctx['m'])), ('state untouched', b_and(n_eq(u2, ctx['u']), b_and(n_eq(m2, ctx['m']), n_eq(L2, ctx['L']))))]
         return [('set_limit installs the new limit', n_eq(L2, ctx['nl'])), ('usage and peak untouched', b_and(n_eq(u2, ctx['u']), n_eq(m2, ctx['m'])))]
 
+    def case(self, ctx, vals, label):
+        c = Harness.case(self, ctx, vals, label)
+        c['inputs']['which'] = ctx['which']
+        return c
+
+    def prefer(self, ctx):
+        return [ctx['L'] <= 4096, ctx['u'] <= 4096, ctx['m'] <= 8192, ctx['nl'] <= 8192]
+
     def native(self, inputs, label):
-        return []
+        u, m, L, nl = (int(inputs[k]) for k in ('used', 'peak', 'limit', 'new_limit'))
+        if max(u, m) > 1 << 24:
+            return []
+        return [{'mode': 'alloc_helper', 'limit': L, 'used': u, 'peak': m, 'which': inputs['which'], 'new_limit': nl}]
 
     def judge(self, inputs, label, obs):
-        return 'kernel-only', str(inputs)
+        if not obs:
+            return False, 'state too large to reach natively'
+        u, m, L, nl = (int(inputs[k]) for k in ('used', 'peak', 'limit', 'new_limit'))
+        w = inputs['which']
+        o = obs[0]
+        if o.get('outcome') != 'ok':
+            return True, 'native helper run crashed: %s' % o
+        bad = []
+        want_peak = u if w == 'reset_max' else m
+        if o['peak_after'] != want_peak:
+            bad.append('peak after %s is %d, expected %d' % (w, o['peak_after'], want_peak))
+        if w == 'get_max' and o['ret'] != m:
+            bad.append('get_max returned %d, the peak is %d' % (o['ret'], m))
+        if o['used_after'] != u:
+            bad.append('usage after %s is %d, expected %d' % (w, o['used_after'], u))
+        if not o['fits']:
+            bad.append('a request that fits the limit in force is refused')
+        if not o['over_refused']:
+            bad.append('a request one byte over the limit in force is granted')
+        return bool(bad), '(used=%d, peak=%d, limit=%d); %s(%s) -> %s: %s' % (u, m, L, w, nl if w == 'set_limit' else '', o, '; '.join(bad) or 'as specified')
 
 
 class TwoThreads(Harness):
